@@ -136,7 +136,56 @@ func (w *Worktree) status(cfg *config.Config, ss StatusStrategy, commit plumbing
 		}
 	}
 
+	if err := w.applyIntentToAdd(s, commit); err != nil {
+		return nil, err
+	}
+
 	return s, nil
+}
+
+// applyIntentToAdd reports intent-to-add entries (git add -N) the way git
+// status does. Such an entry only records that the path will be added later:
+// it holds the empty blob and is not part of what would be committed. git
+// therefore compares HEAD with an index that does not have the path (a staged
+// deletion if HEAD has it, nothing otherwise) and shows the file as added in
+// the worktree (" A"), or as deleted (" D") when it is gone.
+func (w *Worktree) applyIntentToAdd(s Status, commit plumbing.Hash) error {
+	idx, err := w.r.Storer.Index()
+	if err != nil {
+		return err
+	}
+
+	var head *object.Tree
+	for _, e := range idx.Entries {
+		if !e.IntentToAdd {
+			continue
+		}
+
+		if head == nil && !commit.IsZero() {
+			c, err := w.r.CommitObject(commit)
+			if err != nil {
+				return err
+			}
+			if head, err = c.Tree(); err != nil {
+				return err
+			}
+		}
+
+		fs := s.File(e.Name)
+		fs.Staging = Unmodified
+		if head != nil {
+			// A directory of that name in HEAD is not this path: its
+			// files are reported on their own.
+			if he, err := head.FindEntry(e.Name); err == nil && he.Mode != filemode.Dir {
+				fs.Staging = Deleted
+			}
+		}
+		if fs.Worktree != Deleted {
+			fs.Worktree = Added
+		}
+	}
+
+	return nil
 }
 
 func nameFromAction(ch *merkletrie.Change) string {
